@@ -1,0 +1,220 @@
+//go:build verif
+
+// Contracts for the bmverif deductive checker (comment-only; compiled only under -tags verif).
+// Property C10: topology edits preserve the well-formedness of the bond graph and every bond
+// they do not address.
+
+package bondmachine
+
+//@ props C10
+
+// Ghost witnesses of the endpoint bijections (existential content of "endpoint lists match").
+//@ ghost field Bondmachine.inpos map[int]int
+//@ ghost field Bondmachine.outpos map[int]int
+//@ ghost field Bondmachine.pin map[int]map[int]int
+//@ ghost field Bondmachine.pout map[int]map[int]int
+
+//@ spec procN(b *Bondmachine, c int) int := int(b.Domains[b.Processors[c]].N)
+//@ spec procM(b *Bondmachine, c int) int := int(b.Domains[b.Processors[c]].M)
+
+// two slices never share a backing array (needed because append may write in place)
+//@ pred sepInt(a []int, b []int) := cap(a) == 0 || cap(b) == 0 || arr(a) != arr(b)
+//@ pred sepBond(a []Bond, b []Bond) := cap(a) == 0 || cap(b) == 0 || arr(a) != arr(b)
+// a slice that only grew by append since function entry: still in its old array, or in one allocated since
+//@ pred grown(a []int, a0 []int) := (arr(a) == arr(a0) && off(a) == off(a0) && cap(a) == cap(a0)) || freshl(a)
+
+//@ pred wfShape(b *Bondmachine) := b != nil && len(b.Links) == len(b.Internal_inputs) && b.Inputs >= 0 && b.Outputs >= 0
+//@      && len(b.Shared_links) == len(b.Processors)
+//@      && sepInt(b.Links, b.Processors) && sepBond(b.Internal_inputs, b.Internal_outputs)
+
+//@ pred wfLinks(b *Bondmachine) := forall i int :: 0 <= i && i < len(b.Links) ==>
+//@        b.Links[i] == -1 || (0 <= b.Links[i] && b.Links[i] < len(b.Internal_outputs))
+
+//@ pred wfKinds(b *Bondmachine) :=
+//@      (forall p int :: 0 <= p && p < len(b.Internal_outputs) ==> b.Internal_outputs[p].Map_to == 0 || b.Internal_outputs[p].Map_to == 3)
+//@   && (forall p int :: 0 <= p && p < len(b.Internal_inputs) ==> b.Internal_inputs[p].Map_to == 1 || b.Internal_inputs[p].Map_to == 2)
+
+//@ pred wfExtIn(b *Bondmachine) :=
+//@      (forall k int :: 0 <= k && k < b.Inputs ==>
+//@          0 <= b.inpos[k] && b.inpos[k] < len(b.Internal_outputs) && b.Internal_outputs[b.inpos[k]] == Bond{0, k, 0})
+//@   && (forall p int :: 0 <= p && p < len(b.Internal_outputs) && b.Internal_outputs[p].Map_to == 0 ==>
+//@          0 <= b.Internal_outputs[p].Res_id && b.Internal_outputs[p].Res_id < b.Inputs &&
+//@          b.inpos[b.Internal_outputs[p].Res_id] == p && b.Internal_outputs[p].Ext_id == 0)
+
+//@ pred wfExtOut(b *Bondmachine) :=
+//@      (forall k int :: 0 <= k && k < b.Outputs ==>
+//@          0 <= b.outpos[k] && b.outpos[k] < len(b.Internal_inputs) && b.Internal_inputs[b.outpos[k]] == Bond{1, k, 0})
+//@   && (forall p int :: 0 <= p && p < len(b.Internal_inputs) && b.Internal_inputs[p].Map_to == 1 ==>
+//@          0 <= b.Internal_inputs[p].Res_id && b.Internal_inputs[p].Res_id < b.Outputs &&
+//@          b.outpos[b.Internal_inputs[p].Res_id] == p && b.Internal_inputs[p].Ext_id == 0)
+
+//@ pred wfProcs(b *Bondmachine) := forall c int :: 0 <= c && c < len(b.Processors) ==>
+//@        0 <= b.Processors[c] && b.Processors[c] < len(b.Domains) && b.Domains[b.Processors[c]] != nil
+
+//@ pred wfProcIn(b *Bondmachine) :=
+//@      (forall c int, e int :: 0 <= c && c < len(b.Processors) && 0 <= e && e < procN(b, c) ==>
+//@          0 <= b.pin[c][e] && b.pin[c][e] < len(b.Internal_inputs) && b.Internal_inputs[b.pin[c][e]] == Bond{2, c, e})
+//@   && (forall p int :: 0 <= p && p < len(b.Internal_inputs) && b.Internal_inputs[p].Map_to == 2 ==>
+//@          0 <= b.Internal_inputs[p].Res_id && b.Internal_inputs[p].Res_id < len(b.Processors) &&
+//@          0 <= b.Internal_inputs[p].Ext_id && b.Internal_inputs[p].Ext_id < procN(b, b.Internal_inputs[p].Res_id) &&
+//@          b.pin[b.Internal_inputs[p].Res_id][b.Internal_inputs[p].Ext_id] == p)
+
+//@ pred wfProcOut(b *Bondmachine) :=
+//@      (forall c int, e int :: 0 <= c && c < len(b.Processors) && 0 <= e && e < procM(b, c) ==>
+//@          0 <= b.pout[c][e] && b.pout[c][e] < len(b.Internal_outputs) && b.Internal_outputs[b.pout[c][e]] == Bond{3, c, e})
+//@   && (forall p int :: 0 <= p && p < len(b.Internal_outputs) && b.Internal_outputs[p].Map_to == 3 ==>
+//@          0 <= b.Internal_outputs[p].Res_id && b.Internal_outputs[p].Res_id < len(b.Processors) &&
+//@          0 <= b.Internal_outputs[p].Ext_id && b.Internal_outputs[p].Ext_id < procM(b, b.Internal_outputs[p].Res_id) &&
+//@          b.pout[b.Internal_outputs[p].Res_id][b.Internal_outputs[p].Ext_id] == p)
+
+// The statement's "well formed": one link slot per internal input, every link pointing at an
+// existing internal output, endpoint lists matching the external port counts and the processors' port counts.
+//@ pred wfBM(b *Bondmachine) := wfShape(b) && wfLinks(b) && wfKinds(b) && wfExtIn(b) && wfExtOut(b) && wfProcs(b) && wfProcIn(b) && wfProcOut(b)
+
+//@ pred sameInternalInputs(b *Bondmachine) := len(b.Internal_inputs) == old(len(b.Internal_inputs)) &&
+//@        (forall i int :: 0 <= i && i < len(b.Internal_inputs) ==> b.Internal_inputs[i] == old(b.Internal_inputs[i]))
+//@ pred sameInternalOutputs(b *Bondmachine) := len(b.Internal_outputs) == old(len(b.Internal_outputs)) &&
+//@        (forall i int :: 0 <= i && i < len(b.Internal_outputs) ==> b.Internal_outputs[i] == old(b.Internal_outputs[i]))
+//@ pred sameLinks(b *Bondmachine) := len(b.Links) == old(len(b.Links)) &&
+//@        (forall i int :: 0 <= i && i < len(b.Links) ==> b.Links[i] == old(b.Links[i]))
+
+//@ func (bmach *Bondmachine) Del_bond(bid int) error
+//@   requires wfBM(bmach) && 0 <= bid
+//@   ensures deleted: bid < old(len(bmach.Links)) ==> result == nil && bmach.Links[bid] == -1
+//@   ensures rejected: bid >= old(len(bmach.Links)) ==> result != nil
+//@   ensures others: len(bmach.Links) == old(len(bmach.Links)) &&
+//@             (forall i int :: 0 <= i && i < len(bmach.Links) && i != bid ==> bmach.Links[i] == old(bmach.Links[i]))
+//@   ensures wf: wfBM(bmach)
+//@   assigns bmach.Links[bid]
+
+//@ func (bmach *Bondmachine) Add_input() (string, error)
+//@   requires wfBM(bmach) && bmach.Inputs < pow2(62)
+//@   ensures ok: result1 == nil && bmach.Inputs == old(bmach.Inputs) + 1
+//@   ensures newslot: len(bmach.Internal_outputs) == old(len(bmach.Internal_outputs)) + 1 &&
+//@             bmach.Internal_outputs[len(bmach.Internal_outputs) - 1] == Bond{0, old(bmach.Inputs), 0}
+//@   ensures oldslots: forall p int :: 0 <= p && p < old(len(bmach.Internal_outputs)) ==> bmach.Internal_outputs[p] == old(bmach.Internal_outputs[p])
+//@   ensures bonds: sameLinks(bmach) && sameInternalInputs(bmach)
+//@   ensures wf: wfBM(bmach)
+//@   ghost exit bmach.inpos[k int] := k == old(bmach.Inputs) ? old(len(bmach.Internal_outputs)) : old(bmach.inpos[k])
+//@   assigns bmach.Inputs, bmach.Internal_outputs, spare(bmach.Internal_outputs)
+
+//@ func (bmach *Bondmachine) Add_output() (string, error)
+//@   requires wfBM(bmach) && bmach.Outputs < pow2(62)
+//@   ensures ok: result1 == nil && bmach.Outputs == old(bmach.Outputs) + 1
+//@   ensures newslot: len(bmach.Internal_inputs) == old(len(bmach.Internal_inputs)) + 1 &&
+//@             bmach.Internal_inputs[len(bmach.Internal_inputs) - 1] == Bond{1, old(bmach.Outputs), 0} &&
+//@             len(bmach.Links) == old(len(bmach.Links)) + 1 && bmach.Links[len(bmach.Links) - 1] == -1
+//@   ensures oldslots: forall p int :: 0 <= p && p < old(len(bmach.Internal_inputs)) ==>
+//@             bmach.Internal_inputs[p] == old(bmach.Internal_inputs[p]) && bmach.Links[p] == old(bmach.Links[p])
+//@   ensures outputs_kept: sameInternalOutputs(bmach)
+//@   ensures wf: wfBM(bmach)
+//@   ghost exit bmach.outpos[k int] := k == old(bmach.Outputs) ? old(len(bmach.Internal_inputs)) : old(bmach.outpos[k])
+//@   assigns bmach.Outputs, bmach.Internal_inputs, bmach.Links, spare(bmach.Internal_inputs), spare(bmach.Links)
+
+// position shift after removing the element at position q
+//@ spec shiftpos(p int, q int) int := p > q ? p - 1 : p
+// documented renumbering of external inputs above a deleted one
+//@ spec renIn(x Bond, iid int) Bond := (x.Map_to == 0 && x.Res_id > iid) ? Bond{0, x.Res_id - 1, 0} : x
+//@ spec renOut(x Bond, oid int) Bond := (x.Map_to == 1 && x.Res_id > oid) ? Bond{1, x.Res_id - 1, 0} : x
+// link slot k after step 1 of Del_input (bonds that used the deleted input are removed)
+//@ spec unlinked(b *Bondmachine, k int, iid int) int :=
+//@        (old(b.Links[k]) != -1 && old(b.Internal_outputs[b.Links[k]]) == Bond{0, iid, 0}) ? -1 : old(b.Links[k])
+
+//@ func (bmach *Bondmachine) Del_input(iid int) error
+//@   requires wfBM(bmach) && 0 <= iid
+//@   ensures rejected: iid >= old(bmach.Inputs) ==> result != nil && bmach.Inputs == old(bmach.Inputs) &&
+//@             sameLinks(bmach) && sameInternalOutputs(bmach)
+//@   ensures ok: iid < old(bmach.Inputs) ==> result == nil && bmach.Inputs == old(bmach.Inputs) - 1
+//@   ensures inputs_kept: sameInternalInputs(bmach)
+//@   ensures outputs: iid < old(bmach.Inputs) ==> len(bmach.Internal_outputs) == old(len(bmach.Internal_outputs)) - 1 &&
+//@             (forall p int :: 0 <= p && p < len(bmach.Internal_outputs) ==>
+//@                bmach.Internal_outputs[p] == renIn(old(bmach.Internal_outputs[p < old(bmach.inpos[iid]) ? p : p + 1]), iid))
+//@   ensures bonds: iid < old(bmach.Inputs) ==> len(bmach.Links) == old(len(bmach.Links)) &&
+//@             (forall i int :: 0 <= i && i < len(bmach.Links) ==>
+//@                (old(bmach.Links[i]) != -1 && old(bmach.Internal_outputs[bmach.Links[i]]) != Bond{0, iid, 0}
+//@                    ==> bmach.Links[i] != -1 && bmach.Internal_outputs[bmach.Links[i]] == renIn(old(bmach.Internal_outputs[bmach.Links[i]]), iid))
+//@             && ((old(bmach.Links[i]) == -1 || old(bmach.Internal_outputs[bmach.Links[i]]) == Bond{0, iid, 0}) ==> bmach.Links[i] == -1))
+//@   ensures wf: wfBM(bmach)
+//@   ghost exit bmach.inpos[k int] := iid < old(bmach.Inputs) ? shiftpos(old(bmach.inpos[k < iid ? k : k + 1]), old(bmach.inpos[iid])) : old(bmach.inpos[k])
+//@   ghost exit bmach.pout[c int][e int] := iid < old(bmach.Inputs) ? shiftpos(old(bmach.pout[c][e]), old(bmach.inpos[iid])) : old(bmach.pout[c][e])
+//@   assigns bmach.Links[*], bmach.Internal_outputs, bmach.Inputs
+//@   loop 1: modifies bmach.Links[*]
+//@   loop 1: invariant done: forall k int :: 0 <= k && k < i ==> bmach.Links[k] == unlinked(bmach, k, iid)
+//@   loop 1: invariant todo: forall k int :: i <= k && k < len(bmach.Links) ==> bmach.Links[k] == old(bmach.Links[k])
+//@   loop 1: decreases len(bmach.Links) - i
+//@   loop 2: modifies newinternal[*]
+//@   loop 2: invariant pos: (i <= bmach.inpos[iid] ==> j == i && keeppos == -1) && (i > bmach.inpos[iid] ==> j == i - 1 && keeppos == bmach.inpos[iid])
+//@   loop 2: invariant copied: forall k int :: 0 <= k && k < j ==>
+//@             newinternal[k] == renIn(old(bmach.Internal_outputs[k < old(bmach.inpos[iid]) ? k : k + 1]), iid)
+//@   loop 2: decreases len(bmach.Internal_outputs) - i
+//@   loop 3: modifies bmach.Links[*]
+//@   loop 3: invariant done: forall k int :: 0 <= k && k < i ==> bmach.Links[k] == shiftpos(unlinked(bmach, k, iid), keeppos)
+//@   loop 3: invariant todo: forall k int :: i <= k && k < len(bmach.Links) ==> bmach.Links[k] == unlinked(bmach, k, iid)
+//@   loop 3: decreases len(bmach.Links) - i
+
+//@ func (bmach *Bondmachine) Del_output(oid int) error
+//@   requires wfBM(bmach) && 0 <= oid
+//@   ensures rejected: oid >= old(bmach.Outputs) ==> result != nil && bmach.Outputs == old(bmach.Outputs) &&
+//@             sameLinks(bmach) && sameInternalInputs(bmach)
+//@   ensures ok: oid < old(bmach.Outputs) ==> result == nil && bmach.Outputs == old(bmach.Outputs) - 1
+//@   ensures outputs_kept: sameInternalOutputs(bmach)
+//@   ensures bonds: oid < old(bmach.Outputs) ==> len(bmach.Internal_inputs) == old(len(bmach.Internal_inputs)) - 1 &&
+//@             len(bmach.Links) == len(bmach.Internal_inputs) &&
+//@             (forall p int :: 0 <= p && p < len(bmach.Internal_inputs) ==>
+//@                bmach.Internal_inputs[p] == renOut(old(bmach.Internal_inputs[p < old(bmach.outpos[oid]) ? p : p + 1]), oid) &&
+//@                bmach.Links[p] == old(bmach.Links[p < old(bmach.outpos[oid]) ? p : p + 1]))
+//@   ensures wf: wfBM(bmach)
+//@   ghost exit bmach.outpos[k int] := oid < old(bmach.Outputs) ? shiftpos(old(bmach.outpos[k < oid ? k : k + 1]), old(bmach.outpos[oid])) : old(bmach.outpos[k])
+//@   ghost exit bmach.pin[c int][e int] := oid < old(bmach.Outputs) ? shiftpos(old(bmach.pin[c][e]), old(bmach.outpos[oid])) : old(bmach.pin[c][e])
+//@   assigns bmach.Internal_inputs, bmach.Links, bmach.Outputs
+//@   loop 1: modifies newinternal[*], newlinks[*]
+//@   loop 1: invariant pos: (i <= bmach.outpos[oid] ==> j == i) && (i > bmach.outpos[oid] ==> j == i - 1)
+//@   loop 1: invariant copied: forall k int :: 0 <= k && k < j ==>
+//@             newinternal[k] == renOut(old(bmach.Internal_inputs[k < old(bmach.outpos[oid]) ? k : k + 1]), oid) &&
+//@             newlinks[k] == old(bmach.Links[k < old(bmach.outpos[oid]) ? k : k + 1])
+//@   loop 1: decreases len(bmach.Internal_inputs) - i
+
+//@ func (bmach *Bondmachine) Add_processor(dom_id int) (string, error)
+//@   requires wfBM(bmach) && 0 <= dom_id && (dom_id < len(bmach.Domains) ==> bmach.Domains[dom_id] != nil)
+//@   ensures rejected: dom_id >= old(len(bmach.Domains)) ==> result1 != nil && sameLinks(bmach) && sameInternalInputs(bmach) && sameInternalOutputs(bmach) &&
+//@             len(bmach.Processors) == old(len(bmach.Processors))
+//@   ensures ok: dom_id < old(len(bmach.Domains)) ==> result1 == nil && len(bmach.Processors) == old(len(bmach.Processors)) + 1 &&
+//@             bmach.Processors[len(bmach.Processors) - 1] == dom_id
+//@   ensures procs_kept: forall c int :: 0 <= c && c < old(len(bmach.Processors)) ==> bmach.Processors[c] == old(bmach.Processors[c])
+//@   ensures inputs: dom_id < old(len(bmach.Domains)) ==>
+//@             len(bmach.Internal_inputs) == old(len(bmach.Internal_inputs)) + int(bmach.Domains[dom_id].N) && len(bmach.Links) == len(bmach.Internal_inputs) &&
+//@             (forall p int :: 0 <= p && p < old(len(bmach.Internal_inputs)) ==>
+//@                bmach.Internal_inputs[p] == old(bmach.Internal_inputs[p]) && bmach.Links[p] == old(bmach.Links[p])) &&
+//@             (forall p int :: old(len(bmach.Internal_inputs)) <= p && p < len(bmach.Internal_inputs) ==>
+//@                bmach.Internal_inputs[p] == Bond{2, old(len(bmach.Processors)), p - old(len(bmach.Internal_inputs))} &&
+//@                bmach.Links[p] == -1)
+//@   ensures outputs: dom_id < old(len(bmach.Domains)) ==>
+//@             len(bmach.Internal_outputs) == old(len(bmach.Internal_outputs)) + int(bmach.Domains[dom_id].M) &&
+//@             (forall p int :: 0 <= p && p < old(len(bmach.Internal_outputs)) ==> bmach.Internal_outputs[p] == old(bmach.Internal_outputs[p])) &&
+//@             (forall p int :: old(len(bmach.Internal_outputs)) <= p && p < len(bmach.Internal_outputs) ==>
+//@                bmach.Internal_outputs[p] == Bond{3, old(len(bmach.Processors)), p - old(len(bmach.Internal_outputs))})
+//@   ensures wf: wfBM(bmach)
+//@   ghost exit bmach.pin[c int][e int] := (dom_id < old(len(bmach.Domains)) && c == old(len(bmach.Processors))) ? old(len(bmach.Internal_inputs)) + e : old(bmach.pin[c][e])
+//@   ghost exit bmach.pout[c int][e int] := (dom_id < old(len(bmach.Domains)) && c == old(len(bmach.Processors))) ? old(len(bmach.Internal_outputs)) + e : old(bmach.pout[c][e])
+//@   assigns bmach.Internal_inputs, bmach.Links, bmach.Internal_outputs, bmach.Processors, bmach.Shared_links,
+//@           spare(bmach.Internal_inputs), spare(bmach.Links), spare(bmach.Internal_outputs), spare(bmach.Processors), spare(bmach.Shared_links)
+//@   loop 1: modifies bmach.Internal_inputs, bmach.Links, spare(bmach.Internal_inputs), spare(bmach.Links)
+//@   loop 1: invariant range: 0 <= i && i <= inps
+//@   loop 1: invariant lens: len(bmach.Internal_inputs) == old(len(bmach.Internal_inputs)) + i && len(bmach.Links) == len(bmach.Internal_inputs)
+//@   loop 1: invariant sep: sepInt(bmach.Links, bmach.Processors) && sepBond(bmach.Internal_inputs, bmach.Internal_outputs)
+//@   loop 1: invariant grown: grown(bmach.Links, old(bmach.Links)) && grown(bmach.Internal_inputs, old(bmach.Internal_inputs))
+//@   loop 1: invariant kept: forall p int :: 0 <= p && p < old(len(bmach.Internal_inputs)) ==>
+//@                bmach.Internal_inputs[p] == old(bmach.Internal_inputs[p]) && bmach.Links[p] == old(bmach.Links[p])
+//@   loop 1: invariant added: forall p int :: old(len(bmach.Internal_inputs)) <= p && p < len(bmach.Internal_inputs) ==>
+//@                bmach.Internal_inputs[p] == Bond{2, len(bmach.Processors), p - old(len(bmach.Internal_inputs))} &&
+//@                bmach.Links[p] == -1
+//@   loop 1: decreases inps - i
+//@   loop 2: modifies bmach.Internal_outputs, spare(bmach.Internal_outputs)
+//@   loop 2: invariant range: 0 <= i && i <= outs
+//@   loop 2: invariant lens: len(bmach.Internal_outputs) == old(len(bmach.Internal_outputs)) + i
+//@   loop 2: invariant sep: sepBond(bmach.Internal_inputs, bmach.Internal_outputs)
+//@   loop 2: invariant grown: grown(bmach.Internal_outputs, old(bmach.Internal_outputs))
+//@   loop 2: invariant kept: forall p int :: 0 <= p && p < old(len(bmach.Internal_outputs)) ==> bmach.Internal_outputs[p] == old(bmach.Internal_outputs[p])
+//@   loop 2: invariant added: forall p int :: old(len(bmach.Internal_outputs)) <= p && p < len(bmach.Internal_outputs) ==>
+//@                bmach.Internal_outputs[p] == Bond{3, len(bmach.Processors), p - old(len(bmach.Internal_outputs))}
+//@   loop 2: decreases outs - i
